@@ -430,6 +430,9 @@ func (c *FnCtx) checkFrame(frame *Frame, st *State, env *SpecEnv, pos token.Pos)
 			key := mapKeyOf(mv.T)
 			add(arrName("D", key, "", "Bool"), mv.S)
 			add(arrName("L", "", "", "Int"), mv.S)
+			for _, gs := range c.sumsFor(mv.T) {
+				add(sumArr(gs), mv.S)
+			}
 			for _, lf := range leavesOf(mt.Elem()) {
 				add(arrName("V", key, lf.Path, lf.Sort), mv.S)
 			}
